@@ -13,10 +13,12 @@ type Prop struct {
 	Mons func() []core.Monitor
 	Run  func(c *core.Ctx)
 	// Replay handles "custom" witnesses; history witnesses are replayed generically.
-	Replay  func(c *core.Ctx, w *core.Witness) bool
-	Floors  []core.Floor
-	NeedVFS bool
-	NeedIn  bool
+	Replay func(c *core.Ctx, w *core.Witness) bool
+	Floors []core.Floor
+	// ThoroughFloors are demanded in addition when the tier is thorough.
+	ThoroughFloors []core.Floor
+	NeedVFS        bool
+	NeedIn         bool
 }
 
 var Registry = map[string]*Prop{}
@@ -27,7 +29,7 @@ var commonAssume = []string{
 	"reach is the generated workload: the histories, names, contents and fault positions this run executed",
 	"trusted base: Go std (os, compress/zlib, crypto/sha1) and the independent decoders in harness/gitfmt",
 	"commands are invoked from the repository root, one real goit process per command",
-	"file names exclude NUL, newline, CR, TAB, backslash, leading '-', leading/trailing blanks, '.'/'..' components, symlinks",
+	"generated file names exclude NUL, newline, CR, TAB, backslash, leading '-', '.'/'..' components; names with blanks at their ends only in C05; symbolic links only in C03 (as unreadable entries)",
 }
 
 func CommonAssume() []string { return commonAssume }
